@@ -318,6 +318,13 @@ func (w *World) Within(fi *FuncInfo, depth int) []*FuncInfo {
 // Fn looks a function up by display name in a package; nil if absent.
 func (w *World) Fn(p *packages.Package, display string) *FuncInfo {
 	if fi := w.byName[p.PkgPath+"."+display]; fi != nil {
+		// Close() { return x.closeWith(nil) }: the body of Close moved into a method that a second
+		// entry (CloseWithReport, CloseWithContext) shares - that method is the closer the rules read
+		if display == "(*scope).Close" || display == "(*provider).Close" {
+			if h := closeDelegate(w, fi); h != nil {
+				return h
+			}
+		}
 		return fi
 	}
 	// the name is only a hint for unexported helpers: fall back to the role
